@@ -181,7 +181,33 @@ def showVal (op : Op) (σ : State) : Val → String
 def showStop : Stop → String
   | .abort => "STOP abort" | .segv => "STOP segv" | .asan => "STOP asan" | .badop => "STOP bad-op"
 
+/-- `smany s n` (harness/mem.c): n co-owners and n weak references are created from `s` and
+dropped again, every step judged inside the harness; the net effect on the state is none, so the
+driver answers with the reads the operation starts with (`cstl_shared_ptr_unique`) and the
+unchanged state. -/
+def smanyOp (ws : List String) : Option Op :=
+  match ws with
+  | ["smany", a, n] =>
+    match parseObj a, n.toNat? with
+    | some a, some n => if n ≤ 1000000 then some (.sUnique a) else none
+    | _, _ => none
+  | ["amany", a, n] =>
+    -- n views of the whole of `a` come and go (harness/mem.c): starts with the guarded read of `a`
+    match parseObj a, n.toNat? with
+    | some a, some n => if n ≤ 1000000 then some (.aData a) else none
+    | _, _ => none
+  | _ => none
+
 def mstep (ds : DState) (ws : List String) : DState × String :=
+  match smanyOp ws with
+  | some op =>
+    match step op ds.σ with
+    | .stop k _ => (ds, showStop k)
+    | .ok _ σ =>
+      let evs := σ.log
+      let ds' := compact ds σ
+      (ds', "ok | " ++ dump ds' evs)
+  | none =>
   match parseOp ws with
   | none => (ds, "STOP bad-op")
   | some op =>
